@@ -18,6 +18,9 @@ package raft
 //@ ghost func vf2(uint64) uint64
 //@ axiom [T-std.vfile-injective] forall(d, e, a, b, vf1(vfile(d, e, a, b)) == a && vf2(vfile(d, e, a, b)) == b)
 //
+//@ ghost func pkind(uint64) int
+//@ axiom [T-std.valuefile-kind] forall(d, e, a, b, pkind(vfile(d, e, a, b)) == 0)
+//@ pure OnlyValueFiles() bool = forall(p, pkind(p) != 0 ==> fs[p] == old(fs[p]))
 //@ pure onDisk(v *value, a uint64, b uint64) bool = fs[vfile(v.dir, v.ext, a, b)]
 //@ pure DiskIs(v *value, a uint64, b uint64) bool = forall(x, y, onDisk(v, x, y) == (x == a && y == b))
 //@ pure ValueInv(v *value) bool = DiskIs(v, v.v1, v.v2)
@@ -47,6 +50,7 @@ package raft
 //@   ensures [C05.set-ok] result0 == nil ==> v.v1 == v1 && v.v2 == v2 && ValueInv(v)
 //@   ensures [C05.set-err] result0 != nil ==> v.v1 == old(v.v1) && v.v2 == old(v.v2)
 //@   ensures [C05.set-atomic] DiskIs(v, old(v.v1), old(v.v2)) || DiskIs(v, v1, v2)
+//@   ensures [C10.only-value-files] OnlyValueFiles()
 //@   crash_inv [C10.value-crash-atomic] DiskIs(v, old(v.v1), old(v.v2)) || DiskIs(v, v1, v2)
 
 // ---------------------------------------------------------------------------
@@ -65,7 +69,9 @@ package raft
 //@   maypanic OpError
 //@   ensures [C05.persisted] s.term == term && s.votedFor == candidate && TermInv(s)
 //@   ensures [C05.termval-stable] s.termVal == old(s.termVal)
+//@   ensures [C10.only-value-files] OnlyValueFiles()
 //@   panic_ensures [C05.fail-keeps-memory] s.term == old(s.term) && s.votedFor == old(s.votedFor) && s.termVal == old(s.termVal)
+//@   panic_ensures [C10.only-value-files] OnlyValueFiles()
 //@   panic_ensures [C05.fail-atomic] DurableIs(s, old(s.term), old(s.votedFor)) || DurableIs(s, term, candidate)
 //@   crash_inv [C10.vote-crash-atomic] (DurableIs(s, old(s.term), old(s.votedFor)) || DurableIs(s, term, candidate)) && s.termVal == old(s.termVal)
 
@@ -76,7 +82,9 @@ package raft
 //@   maypanic OpError
 //@   ensures [C05.term-persisted] s.term == term && TermInv(s) && (term == old(s.term) ==> s.votedFor == old(s.votedFor)) && (term != old(s.term) ==> s.votedFor == 0)
 //@   ensures [C05.termval-stable] s.termVal == old(s.termVal)
+//@   ensures [C10.only-value-files] OnlyValueFiles()
 //@   panic_ensures [C05.fail-keeps-memory] s.term == old(s.term) && s.votedFor == old(s.votedFor) && s.termVal == old(s.termVal)
+//@   panic_ensures [C10.only-value-files] OnlyValueFiles()
 //@   panic_ensures [C05.fail-atomic] DurableIs(s, old(s.term), old(s.votedFor)) || DurableIs(s, term, 0)
 //@   crash_inv [C10.term-crash-atomic] (DurableIs(s, old(s.term), old(s.votedFor)) || DurableIs(s, term, 0)) && s.termVal == old(s.termVal)
 
@@ -301,7 +309,7 @@ package raft
 //@ pure CfgWF(s *storage) bool = s.configs.Committed.Index <= s.configs.Latest.Index && s.configs.Latest.Index <= s.lastLogIndex
 //@ pure CfgEntry(s *storage, i uint64, t uint64) bool = i > s.snaps.index ==> i <= s.lastLogIndex && s.gtyp[i] == entryConfig && s.gterm[i] == t
 //@ pure CfgInLog(s *storage) bool = CfgEntry(s, s.configs.Latest.Index, s.configs.Latest.Term) && CfgEntry(s, s.configs.Committed.Index, s.configs.Committed.Term) && s.configs.Committed.Index <= s.configs.Latest.Index && forall(i, i > s.snaps.index && i <= s.lastLogIndex && i > s.configs.Committed.Index && i != s.configs.Latest.Index ==> s.gtyp[i] != entryConfig)
-//@ pure NodeInv(r *Raft) bool = RaftWF(r) && LogWF(r.storage) && CfgWF(r.storage) && r.snaps.index <= r.commitIndex && r.commitIndex <= r.lastLogIndex && r.resolver != nil && r.fsm != nil
+//@ pure NodeInv(r *Raft) bool = RaftWF(r) && LogWF(r.storage) && CfgWF(r.storage) && r.commitIndex <= r.lastLogIndex && r.resolver != nil && r.fsm != nil
 
 //@ view (*log.Log).PrevIndex
 //@   ensures result0 == l.gprev
@@ -390,15 +398,15 @@ package raft
 //@   ensures [C01.step-down] req.term >= old(r.term) ==> r.term == req.term && r.state == Follower && (r.leader == req.src || r.leader == 0)
 //@   ensures [C17.stale-ignored] req.term < old(r.term) ==> result0 != success && r.term == old(r.term) && r.state == old(r.state) && r.leader == old(r.leader) && r.commitIndex == old(r.commitIndex) && r.lastLogIndex == old(r.lastLogIndex)
 //@   ensures [C19.commit-monotone] r.commitIndex >= old(r.commitIndex)
-//@   ensures [C19.nodeinv] result0 != unexpectedErr ==> LogWF(r.storage) && r.snaps.index <= r.commitIndex && r.commitIndex <= r.lastLogIndex
+//@   ensures [C19.nodeinv] result0 != unexpectedErr ==> LogWF(r.storage) && r.commitIndex <= r.lastLogIndex
 //@   ensures [C04.consistency-check] result0 == success && req.prevLogIndex > r.snaps.index ==> req.prevLogIndex <= old(r.lastLogIndex) && old(r.gterm[req.prevLogIndex]) == req.prevLogTerm
 //@   ensures [C04.entries-stored] result0 == success ==> forall(j, old(spos[ref(c.bufr)]) <= j && j < old(spos[ref(c.bufr)]) + old(req.numEntries) && sIdx(ref(c.bufr), j) > r.snaps.index ==> sIdx(ref(c.bufr), j) <= r.lastLogIndex && r.gterm[sIdx(ref(c.bufr), j)] == sTerm(ref(c.bufr), j))
 //@   ensures [C02.prefix-untouched] forall(i, i <= req.prevLogIndex ==> r.gterm[i] == old(r.gterm[i])) && (result0 == success ==> r.lastLogIndex >= req.prevLogIndex || r.lastLogIndex >= old(r.lastLogIndex))
 //@   ensures [C02.truncate-only-at-conflict] result0 == success && forall(j, old(spos[ref(c.bufr)]) <= j && j < old(spos[ref(c.bufr)]) + old(req.numEntries) && sIdx(ref(c.bufr), j) > r.snaps.index && sIdx(ref(c.bufr), j) <= old(r.lastLogIndex) ==> sTerm(ref(c.bufr), j) == old(r.gterm[sIdx(ref(c.bufr), j)])) ==> r.lastLogIndex >= old(r.lastLogIndex) && forall(i, i <= old(r.lastLogIndex) ==> r.gterm[i] == old(r.gterm[i]))
 //@   ensures [C08.follower-adopt-revert] result0 == success ==> CfgInLog(r.storage)
 //@   ensures [C06.follower-flush-before-ack] result0 == success ==> r.flushed == r.lastLogIndex
-//@   ensures [C02.follower-commit-rule] r.commitIndex > old(r.commitIndex) ==> r.commitIndex <= req.ldrCommitIndex && r.commitIndex <= r.lastLogIndex && r.gterm[r.commitIndex] == req.term && r.commitIndex <= r.flushed
-//@   loop 1 invariant RaftWF(r) && LogWF(r.storage) && r.resolver != nil && r.fsm != nil && r.snaps.index <= r.commitIndex && r.commitIndex <= r.lastLogIndex
+//@   ensures [C02.follower-commit-rule] r.commitIndex > old(r.commitIndex) ==> r.commitIndex <= req.ldrCommitIndex && r.commitIndex <= r.lastLogIndex && (r.commitIndex > r.snaps.index ==> r.gterm[r.commitIndex] == req.term) && r.commitIndex <= r.flushed
+//@   loop 1 invariant RaftWF(r) && LogWF(r.storage) && r.resolver != nil && r.fsm != nil && r.commitIndex <= r.lastLogIndex
 //@   loop 1 invariant r.term == req.term && r.state == Follower && (r.leader == req.src || r.leader == 0) && r.term >= old(r.term)
 //@   loop 1 invariant r.commitIndex >= old(r.commitIndex)
 //@   loop 1 invariant c.bufr != nil && c.rwc != nil
@@ -408,7 +416,7 @@ package raft
 //@   loop 1 invariant index > r.snaps.index ==> index <= r.lastLogIndex && r.gterm[index] == term
 //@   loop 1 invariant syncLog || r.flushed == r.lastLogIndex
 //@   loop 1 invariant old(req.numEntries) == 0 ==> !syncLog
-//@   loop 1 invariant r.commitIndex > old(r.commitIndex) ==> r.commitIndex <= req.ldrCommitIndex && r.gterm[r.commitIndex] == req.term && r.commitIndex <= r.flushed && r.commitIndex <= req.prevLogIndex
+//@   loop 1 invariant r.commitIndex > old(r.commitIndex) ==> r.commitIndex <= req.ldrCommitIndex && (r.commitIndex > r.snaps.index ==> r.gterm[r.commitIndex] == req.term) && r.commitIndex <= r.flushed && r.commitIndex <= req.prevLogIndex
 //@   loop 1 invariant req.prevLogIndex > r.snaps.index ==> req.prevLogIndex <= old(r.lastLogIndex) && old(r.gterm[req.prevLogIndex]) == req.prevLogTerm
 //@   loop 1 invariant forall(i, i <= req.prevLogIndex ==> r.gterm[i] == old(r.gterm[i]))
 //@   loop 1 invariant forall(i, i <= r.commitIndex ==> r.gterm[i] == old(r.gterm[i]))
